@@ -228,9 +228,9 @@ pub fn def() -> CheckDef {
         rule: "proptest: (1) suffix-sharing packets (as C03) built through the public API, serialised plain and compressed and parsed back, giving three versions of every value (built from parts, borrowed from the plain buffer, borrowed from the compressed buffer); each packet/question/record/name/label/RDATA is cloned and converted with into_owned (packets: rebuilt from owned parts) and must be ==, observe equally, hash equally and serialise to identical bytes plain and compressed; the three versions of each record must be pairwise ==, hash-equal and byte-equal. (2) records differing only in TTL / cache-flush: whenever == holds the hashes must agree and a HashSet must hold one entry. (3) InstanceInformation built 32 times from the same addresses/ports/attributes in rotated and reversed insertion orders (fresh HashSet seeds each time): equal, equal hashes, one HashSet slot. Non-trivial = a name with >= 2 labels or a variable-length field (instances: >= 2 distinct addresses or ports)",
         assumptions: vec!["DefaultHasher::new() (fixed keys) for hash comparisons; std's per-HashSet RandomState only influences how quickly an order-dependent Hash is caught, never the verdict on a correct one"],
         sections: vec![
-            Box::new(PropSection { name: "copies", rule: "clone / owned / built-vs-parsed", strategy: copies_strategy, cases: (12_000, 300_000), check: check_copies }),
-            Box::new(PropSection { name: "ttl-flush", rule: "records equal up to ttl/flush", strategy: pair_strategy, cases: (40_000, 1_000_000), check: check_pair }),
-            Box::new(PropSection { name: "instance-info", rule: "set-valued instance information", strategy: inst_strategy, cases: (4_000, 100_000), check: check_inst }),
+            Box::new(PropSection { name: "copies", rule: "clone / owned / built-vs-parsed", strategy: copies_strategy, cases: (60_000, 600_000), check: check_copies }),
+            Box::new(PropSection { name: "ttl-flush", rule: "records equal up to ttl/flush", strategy: pair_strategy, cases: (200_000, 2_000_000), check: check_pair }),
+            Box::new(PropSection { name: "instance-info", rule: "set-valued instance information", strategy: inst_strategy, cases: (20_000, 200_000), check: check_inst }),
         ],
     }
 }
